@@ -11,7 +11,7 @@ def run(tier, seed, jobs):
     if tier != "quick":
         configs.append(dict(eager=True, salt=1, env_budget=2))
     cov, viol, harness = run_family(FAMILY, tier, configs, jobs,
-                                    max_execs=12000 if tier == "quick" else 400000, seed=seed)
+                                    max_execs=12000 if tier == "quick" else 30000, seed=seed)
     cov["max_deviations"] = budget
     # the same scenario scripts over real UNIX / TCP loopback sockets on asyncio and uvloop
     # (sizes scaled up to exceed real kernel buffers): sampling of kernel behaviour, labelled so
